@@ -156,9 +156,52 @@ def run(ctx):
             else:
                 h.add(st, rs)
         hs.append(h)
+    # (c'') small files whose combined blocks were built up over two versions ([a b] then [c]); a third backup of the
+    # UNCHANGED tree is killed at every early point (before, at and after its head); the resumed backup must write no
+    # block and record the second version's addresses (its basis is then reached through a band that cannot be opened)
+    def sf(d, m):
+        return {"k": "f", "data": d.hex(), "mode": 0o644, "mtime": 10**18 + m}
+    v0 = {"k": "d", "mode": 0o755, "mtime": 10**18, "c": {"a": sf(b"aaaa", 1), "b": sf(b"bbbbbb", 2)}}
+    v1 = {"k": "d", "mode": 0o755, "mtime": 10**18, "c": {"a": sf(b"aaaa", 1), "b": sf(b"bbbbbb", 2), "c": sf(b"ccc", 3)}}
+    oc = {"meph": 100000, "mbs": 1000, "sfc": 16}
+    icases = []
+    for k in range(2, 16 if quick else 30):
+        icases.append({"id": f"i{k}", "k": k, "steps": [
+            {"op": "init"}, {"op": "mktree", "path": "src", "tree": v0}, {"op": "walk"}, {"op": "backup", "opts": oc},
+            {"op": "mktree", "path": "src", "tree": v1}, {"op": "walk"}, {"op": "backup", "opts": oc}, {"op": "arch"},
+            {"op": "backup", "opts": oc, "plan": {"crash": k}}, {"op": "arch"}, {"op": "backup", "opts": oc}, {"op": "arch"}]})
+    ires = ctx.cvh_run(icases)
+    for c in icases:
+        r = ires.get(c["id"])
+        ctx.count()
+        small = {"steps": c["steps"]}
+        if r is None or r[10].get("result") != "ok":
+            ctx.oracle_fail("dedup/resumed-backup-failed", "the resumed backup failed: " + json.dumps(r and (r[10].get("err") or r[10].get("panic")))[:200], small)
+            continue
+        w = block_writes(r[10]["trace"])
+        if w or r[10]["value"]["written_blocks"]:
+            ctx.oracle_fail("dedup/resume-rewrites-blocks", f"after a kill at operation {c['k']} the next backup of an unchanged tree wrote {len(w)} data block(s)", small)
+            continue
+        dec = scen.decode(r[11]["arch"])
+        a1 = addresses(r[7]["arch"], 1)
+        an = {e["apath"]: e.get("addrs", []) for e in scen.band_entries(dec["bands"][max(dec["bands"])])}
+        if a1 != an:
+            diff = [p for p in a1 if a1.get(p) != an.get(p)][:3]
+            ctx.oracle_fail("dedup/resume-does-not-reuse", f"after a kill at operation {c['k']} the next backup of an unchanged tree records different addresses for {diff}", small)
+            continue
+        ctx.nontrivial(c["id"])
+        names = l4.Names()
+        scen.collect_names(names, c["steps"], r)
+        h = l4.History(c["id"], names)
+        for i, (st, rs) in enumerate(zip(c["steps"], r)):
+            if i == 8 and rs.get("crashed"):
+                h.add(st, rs, mode=1, crash=(c["k"], False))
+            else:
+                h.add(st, rs)
+        hs.append(h)
     out = l4.evaluate(ctx, "C14", hs, shards=8 if quick else 16)
     agreed = total = 0
-    allc = {c["id"]: c for c in cases + hcases + tcases}
+    allc = {c["id"]: c for c in cases + hcases + tcases + icases}
     for h in hs:
         for desc, code in (out.get(h.cid) or []):
             total += 1
